@@ -840,7 +840,7 @@ func TestVerifC19(t *testing.T) {
 		iters = 200000
 	}
 	stressLine := make(chan string, 1)
-	go func() { stressLine <- c19Stress(false, iters, scratch) }()
+	go func() { stressLine <- c19Stress(thorough, iters, scratch) }() // thorough = built with -race (checks/C19.json)
 
 	// 1. raw operations
 	t0 := time.Now()
@@ -853,10 +853,11 @@ func TestVerifC19(t *testing.T) {
 	fmt.Fprintf(out, "# c19 time ops %v\n", time.Since(t0))
 	t0 = time.Now()
 
-	// 2. event sequences: one real Core + Prophet per configuration
-	nCfg, nSteps, fullEvery := 8, 500, 40
+	// 2. event sequences: a fresh Prophet per configuration (many short histories: the early steps,
+	// where entries are created from 0, are the ones most sensitive to the operation order)
+	nCfg, nSteps, fullEvery := 40, 200, 60
 	if thorough {
-		nCfg, nSteps, fullEvery = 40, 3000, 12
+		nCfg, nSteps, fullEvery = 200, 600, 40
 	}
 	peers := []string{"n0", "n1", "n2", "n3", "n4", "n5"}
 	hist := map[string]int{}
@@ -872,6 +873,11 @@ func TestVerifC19(t *testing.T) {
 	defer w.c.Close()
 	for ci := 0; ci < nCfg; ci++ {
 		cfg := c19Cfg{c19Val(r), c19Val(r), c19Val(r)}
+		if ci%2 == 1 {
+			// generic constants: full 53-bit mantissas (every product and sum really rounds)
+			u := func() float64 { return float64(r.next()>>11) / (1 << 53) }
+			cfg = c19Cfg{u(), u(), u()}
+		}
 		switch ci {
 		case 0:
 			cfg = c19Cfg{0.75, 0.25, 0.98} // the documented defaults
@@ -907,6 +913,9 @@ func TestVerifC19(t *testing.T) {
 						k = peers[r.intn(len(peers))]
 					}
 					vec[c19Eid(k)] = c19Val(r)
+					if r.intn(2) == 0 {
+						vec[c19Eid(k)] = float64(r.next()>>11) / (1 << 53)
+					}
 				}
 				line = w.evReceive(from, r.intn(8) != 0, vec, full)
 			}
@@ -998,20 +1007,6 @@ func TestVerifC19(t *testing.T) {
 	fmt.Fprintln(out, <-stressLine)
 	fmt.Fprintf(out, "# c19 time stress-wait %v\n", time.Since(t0))
 	fmt.Fprintf(out, "# c19 events %v\n", hist)
-}
-
-// TestVerifC19Race is the same stress under the race detector (thorough tier, `-race` build).
-func TestVerifC19Race(t *testing.T) {
-	f, out := c19Out(t)
-	defer f.Close()
-	defer out.Flush()
-	if !verifThorough() {
-		return
-	}
-	if rp := os.Getenv("VERIF_REPLAY"); rp != "" {
-		return
-	}
-	fmt.Fprintln(out, c19Stress(true, 20000, c19Scratch()))
 }
 
 var _ = filepath.Join
